@@ -8,6 +8,7 @@ import (
 	"encoding/json"
 	"fmt"
 	"os"
+	"os/exec"
 	"path/filepath"
 	"sort"
 	"strconv"
@@ -103,6 +104,7 @@ type CheckRun struct {
 	Seed      int64
 	Results   []*ObResult
 	Errs      []string
+	MustFail  []string
 	Notes     []string
 	Funcs     []string
 	Trusted   map[string]string
@@ -150,9 +152,11 @@ func runCheck(prop, tier string, rebaseline bool) int {
 	if s := os.Getenv("VERIF_SEED"); s != "" {
 		run.Seed, _ = strconv.ParseInt(s, 10, 64)
 	}
+	verifSeed = run.Seed
 	timeout := 10
 	if tier == "thorough" {
 		timeout = 60
+		agreeMode = true
 	}
 	repo := "/repo"
 	if r := os.Getenv("VERIF_REPO"); r != "" {
@@ -302,7 +306,56 @@ func runCheck(prop, tier string, rebaseline bool) int {
 			}
 		}
 	}
+	if tier == "thorough" && !rebaseline && os.Getenv("VERIF_REPO") == "" {
+		mustFailCorpus(run, repo)
+	}
 	return finishCheck(run, rebaseline)
+}
+
+// mustFailCorpus (thorough tier): every seeded change recorded for this property under
+// /verif/seeded is applied to a scratch copy of the repository and the quick check is run on the
+// copy; it must report a violation. A miss is a defect of the machinery, reported as an engine
+// message (UNDECIDED), never as a violation of the property.
+func mustFailCorpus(run *CheckRun, repo string) {
+	dirs, _ := filepath.Glob(filepath.Join(verifDir, "seeded", run.Prop+"-*"))
+	sort.Strings(dirs)
+	self, _ := os.Executable()
+	for _, d := range dirs {
+		patch := filepath.Join(d, "patch.diff")
+		if _, err := os.Stat(patch); err != nil {
+			continue
+		}
+		tmp, err := os.MkdirTemp("", "verif-mustfail-")
+		if err != nil {
+			continue
+		}
+		cp := exec.Command("git", "-C", repo, "worktree", "add", "--detach", "-q", filepath.Join(tmp, "repo"), "HEAD")
+		if out, err := cp.CombinedOutput(); err != nil {
+			run.MustFail = append(run.MustFail, fmt.Sprintf("%s: cannot create scratch copy: %v %s", filepath.Base(d), err, out))
+			os.RemoveAll(tmp)
+			continue
+		}
+		scratch := filepath.Join(tmp, "repo")
+		ap := exec.Command("git", "-C", scratch, "apply", patch)
+		res := ""
+		if out, err := ap.CombinedOutput(); err != nil {
+			res = fmt.Sprintf("%s: patch does not apply to the current tree (%s)", filepath.Base(d), strings.TrimSpace(firstLines(string(out), 2)))
+		} else {
+			c := exec.Command(self, "check", run.Prop, "quick")
+			c.Env = append(goEnv(), "VERIF_REPO="+scratch, "VERIF_EVIDENCE_DIR="+filepath.Join(tmp, "evidence"), "VERIF_REPLAY_DIR="+filepath.Join(tmp, "replay"))
+			out, _ := c.CombinedOutput()
+			code := c.ProcessState.ExitCode()
+			nviol := strings.Count(string(out), "VIOLATION property=")
+			res = fmt.Sprintf("%s: exit %d, %d violation lines", filepath.Base(d), code, nviol)
+			if code != 1 || nviol == 0 {
+				run.Errs = append(run.Errs, fmt.Sprintf("must-fail corpus: seeded change %s is not reported by this check any more (exit %d)", filepath.Base(d), code))
+			}
+		}
+		run.MustFail = append(run.MustFail, res)
+		exec.Command("git", "-C", repo, "worktree", "remove", "--force", scratch).Run()
+		os.RemoveAll(tmp)
+	}
+	exec.Command("git", "-C", repo, "worktree", "prune").Run()
 }
 
 func okStr(b bool) string {
@@ -416,7 +469,7 @@ func finishCheck(run *CheckRun, rebaseline bool) int {
 	for _, l := range kfLines {
 		fmt.Println(l)
 	}
-	os.MkdirAll(filepath.Join(verifDir, "out", "replay", prop), 0o755)
+	os.MkdirAll(filepath.Join(replayRoot(), prop), 0o755)
 	// one VIOLATION line per failed contract clause (the same clause usually fails for many
 	// generated instances / paths); every failed obligation is listed in the replay file
 	groups := map[string][]*ObResult{}
@@ -475,6 +528,13 @@ func finishCheck(run *CheckRun, rebaseline bool) int {
 	return 0
 }
 
+func replayRoot() string {
+	if d := os.Getenv("VERIF_REPLAY_DIR"); d != "" {
+		return d
+	}
+	return filepath.Join(verifDir, "out", "replay")
+}
+
 func (r *ObResult) replayed() bool { return strings.Contains(r.Detail, "REPLAYED:") }
 
 func sanitizeFile(s string) string {
@@ -491,7 +551,7 @@ func sanitizeFile(s string) string {
 }
 
 func writeReplay(prop string, group string, rs []*ObResult) string {
-	path := filepath.Join(verifDir, "out", "replay", prop, sanitizeFile(group)+".json")
+	path := filepath.Join(replayRoot(), prop, sanitizeFile(group)+".json")
 	r := rs[0]
 	var all []map[string]any
 	for _, x := range rs {
@@ -554,6 +614,10 @@ func writeEvidence(run *CheckRun, kfLines []string, violations int) {
 		trusted = append(trusted, k+": "+run.Trusted[k])
 	}
 	trusted = append(trusted,
+		"A-types: accessors of go/types, go/ast, go/token values are pure, deterministic functions of their receiver and arguments (uninterpreted); results listed as never nil are not nil; Len/Num* >= 0; index accessors need index < length; the type of an interface method is a *types.Signature; the underlying type of a type-parameter constraint is a *types.Interface; a union has at least one term; structural accessors (Elem, Key, At, Params, Results, Field, EmbeddedType, ExplicitMethod, Term, TypeArgs, Type of a Var/Func/Term) yield strictly smaller values (type expressions are finite trees); names of type objects and Basic.String() are non-empty",
+		"A-case: strings.ToUpper / strings.ToLower / the package-level strings.Replacer are uninterpreted total functions shared by code and specification; they never map a non-empty string to the empty string",
+		"A-sync (stage 2): sync.RWMutex is a correct reader/writer lock; holding the lock that protects a location, in the required mode, for every access implies data-race freedom and atomicity of the critical section (the thread-local lock-permission discipline is what is proved)",
+		"A-tmpl (stage 2): text/template renders moqTemplate as documented; the schema packages exercise every control signature of the template and the template-uniformity obligation carries the generalisation to other arities",
 		"A-go: go/ssa (x/tools v0.30.0) is a faithful model of the Go compiler for the instruction subset handled",
 		"A-int: integers are mathematical (lengths, indices and counters never overflow)",
 		"A-solver: z3 4.8.12 / z3 5.1.0 / cvc5 1.0.3 answer unsat only for unsatisfiable queries",
@@ -574,6 +638,7 @@ func writeEvidence(run *CheckRun, kfLines []string, violations int) {
 		"schema_scenarios":         run.Schemas,
 		"known_findings":           kfLines,
 		"engine_messages":          append(append([]string{}, run.Errs...), run.Notes...),
+		"must_fail_corpus":         run.MustFail,
 	}
 	if n == 0 {
 		cov["explanation"] = "no obligation could be generated on this run"
@@ -590,9 +655,13 @@ func writeEvidence(run *CheckRun, kfLines []string, violations int) {
 		"wall_s":      round3(time.Since(run.Start).Seconds()),
 		"violations":  violations,
 	}
-	os.MkdirAll(filepath.Join(verifDir, "evidence"), 0o755)
+	evDir := filepath.Join(verifDir, "evidence")
+	if d := os.Getenv("VERIF_EVIDENCE_DIR"); d != "" {
+		evDir = d
+	}
+	os.MkdirAll(evDir, 0o755)
 	data, _ := json.MarshalIndent(ev, "", " ")
-	os.WriteFile(filepath.Join(verifDir, "evidence", run.Prop+".json"), data, 0o644)
+	os.WriteFile(filepath.Join(evDir, run.Prop+".json"), data, 0o644)
 }
 
 func round3(x float64) float64 { return float64(int(x*1000+0.5)) / 1000 }
